@@ -230,5 +230,36 @@ def run(case):
     return res
 
 
-PROFILES = {"solve": Profile("solve", cases, run, quick=500, thorough=12000, timeout=300)}
+@st.composite
+def init_cases(draw):
+    """Initial-set campaign: the same scenarios with the budget cut to the initial interpolation set (n+1 evaluations, a fraction of
+    a second each), always with extra bounds and decimal-literal starts next to them - thousands of first points per run, for the
+    rounding-level clauses (box exact, x0 replaced by its projection) that a few hundred full runs rarely exercise."""
+    c = draw(cases())
+    n = c["n"]
+    for _ in range(3):
+        if has_bounds(c):
+            break
+        c = draw(cases())
+        n = c["n"]
+    if has_bounds(c):
+        bx = box_spec(c)
+        rb = c["rhobeg"]
+        x0 = list(c["x0"])
+        for i in range(n):
+            if draw(st.booleans()):
+                side = draw(st.sampled_from(["l", "u"]))
+                bval = bx["l"][i] if side == "l" else bx["u"][i]
+                if abs(bval) < 1e19:
+                    f = draw(st.sampled_from([0.0, 0.005, 0.011, 0.3, 0.5, 0.7, 0.99]))
+                    x0[i] = sc.dec(bval + (f * rb if side == "l" else -f * rb), 3)      # a short decimal literal, far (relatively) from the bound
+        c["x0"] = [float(v) for v in x0]
+    c["maxfun"] = n + 1
+    c["up"] = {k: v for k, v in c["up"].items() if not k.startswith("restarts.")}
+    c["tags"] = sorted(set(c["tags"] + ["init-only"]))
+    return c
+
+
+PROFILES = {"solve": Profile("solve", cases, run, quick=500, thorough=12000, timeout=300),
+            "init": Profile("init", init_cases, run, quick=3000, thorough=60000, timeout=120)}
 KNOWN = {}
